@@ -9,6 +9,7 @@ import c10
 import c11_core
 import c11_engine
 import x11dl
+import x11fw
 
 
 def _fresh_overlay(ctx):
@@ -37,3 +38,7 @@ def run(ctx, replay):
     ctx.overlay_tags.add("x11dl")
     _fresh_overlay(ctx)
     x11dl.run_tier(ctx)
+    # forwarder / failover mode: one reply, own id and question, in time, whatever the configured upstreams do (Forward.tla)
+    ctx.overlay_tags.add("x11fw")
+    _fresh_overlay(ctx)
+    x11fw.run_tier(ctx, families=("c11",))
